@@ -237,6 +237,9 @@ func (p *ecdhParam) UnmarshalBinary(b []byte) error {
 		*bb = b[:bLen]
 		b = b[bLen:]
 	}
+	if len(b) > 0 {
+		return fmt.Errorf("%d bytes of trailing data", len(b))
+	}
 
 	pointLen := max(len(xb), len(yb))
 	p.Pub = make([]byte, 1+2*pointLen)
